@@ -83,7 +83,7 @@ func EncodeFileSW(f *mp4.File) (out []byte, outcome string, pmsg string) {
 			outcome = "err"
 			return
 		}
-		sw := bits.NewFixedSliceWriter(int(sz))
+		sw := DirtyWriter(int(sz))
 		if err := f.EncodeSW(sw); err != nil {
 			outcome = "err"
 			return
@@ -197,20 +197,20 @@ func FixedFiles() [][]byte {
 	emsg := Box("emsg", Cat(vf(1, 0), U32(1000), U64(5), U32(10), U32(7), []byte("urn:x\x00"), []byte("v\x00"), []byte("data")))
 	sidx := Box("sidx", Cat(vf(0, 0), U32(1), U32(1000), U32(0), U32(0), U16(0), U16(1), U32(200), U32(1000), U32(0x90000000)))
 	return [][]byte{
-		Cat(ftyp, mdat, ChainMoov(1, 1, nil, nil)),                                   // progressive, mdat BEFORE moov
-		Cat(ftyp, ChainMoov(1, 1, nil, nil), free, mdat),                             // progressive, moov before mdat
-		Cat(ftyp, mdat0, mdat, mdat0, ChainMoov(2, 1, nil, nil)),                     // empty mdats around the one with a payload
-		Cat(ftyp, ChainMoov(0, 1, nil, mvex), styp, moof, mdat, moof, mdat),          // fragmented
-		Cat(ftyp, mdat, mdat, ChainMoov(1, 1, nil, nil)),                             // refused: two mdats with a payload
-		Cat(ftyp, ChainMoov(0, 1, nil, mvex), mdat, moof),                            // refused: mdat without moof, fragmented
-		Cat(ftyp, nochain),                                                           // refused: no stts chain
-		Cat(ftyp, ChainMoov(1, 1, nil, nil), []byte{0, 0, 0}),                        // refused: trailing bytes
-		Cat(ftyp, ChainMoov(1, 1, nil, nil), U32(0), []byte("mdat"), []byte{1, 2}),   // refused: size 0
-		Cat(ftyp, ChainMoov(1, 1, nil, nil), trunc),                                  // accepted, the cut-short mdat is kept empty
-		Cat(moof, mdat),                                                              // no ftyp, no moov: fragmented by the moof
-		Cat(mdat, moof, mdat),                                                        // progressive mdat, then fragmented
-		Cat(styp, mdat),                                                              // refused: styp makes it fragmented
-		Cat(emsg, mdat),                                                              // refused likewise (emsg)
+		Cat(ftyp, mdat, ChainMoov(1, 1, nil, nil)),                          // progressive, mdat BEFORE moov
+		Cat(ftyp, ChainMoov(1, 1, nil, nil), free, mdat),                    // progressive, moov before mdat
+		Cat(ftyp, mdat0, mdat, mdat0, ChainMoov(2, 1, nil, nil)),            // empty mdats around the one with a payload
+		Cat(ftyp, ChainMoov(0, 1, nil, mvex), styp, moof, mdat, moof, mdat), // fragmented
+		Cat(ftyp, mdat, mdat, ChainMoov(1, 1, nil, nil)),                    // refused: two mdats with a payload
+		Cat(ftyp, ChainMoov(0, 1, nil, mvex), mdat, moof),                   // refused: mdat without moof, fragmented
+		Cat(ftyp, nochain), // refused: no stts chain
+		Cat(ftyp, ChainMoov(1, 1, nil, nil), []byte{0, 0, 0}),                      // refused: trailing bytes
+		Cat(ftyp, ChainMoov(1, 1, nil, nil), U32(0), []byte("mdat"), []byte{1, 2}), // refused: size 0
+		Cat(ftyp, ChainMoov(1, 1, nil, nil), trunc),                                // accepted, the cut-short mdat is kept empty
+		Cat(moof, mdat),       // no ftyp, no moov: fragmented by the moof
+		Cat(mdat, moof, mdat), // progressive mdat, then fragmented
+		Cat(styp, mdat),       // refused: styp makes it fragmented
+		Cat(emsg, mdat),       // refused likewise (emsg)
 		Cat(emsg, moof, mdat, sidx, free),
 		Cat(sidx, moof, mdat, moof, mdat),
 		Cat(ftyp, ChainMoov(0, 1, mp4a, mvex), simpleMoof(1, 1, senc), mdat),         // senc pending, track not encrypted: not parsed
